@@ -258,11 +258,11 @@ def _program_choice(rng):
         return {"path": path}, goals, path, None
     if r < 0.3:
         prog, goals = delay_line_program(rng)
-        text = render_program(prog)
+        text = render_program(prog, rng.choice(["frac", "frac", "minimal"]))
         return {"text": text}, goals[:1] + rng.sample(goals[1:], min(len(goals) - 1, 2)), "dly:" + hashlib.sha256(text.encode()).hexdigest()[:10], "delay"
     if r < 0.5:
         prog, goals, squares = linear_system_program(rng)
-        text = render_program(prog)
+        text = render_program(prog, rng.choice(["frac", "frac", "minimal"]))
         goals = rng.sample(goals, min(len(goals), 2))
         if squares and rng.random() < 0.3:
             goals.append(f"{goals[0]}**2")
@@ -270,14 +270,14 @@ def _program_choice(rng):
         return {"text": text}, goals, "lin:" + hashlib.sha256(text.encode()).hexdigest()[:10], ("cubic" if "z" in text.split("while")[0] else "linear")
     if r < 0.7:
         prog, goals = categorical_program(rng)
-        text = render_program(prog)
+        text = render_program(prog, rng.choice(["frac", "frac", "minimal"]))
         return {"text": text}, goals[:1] + rng.sample(goals[1:], min(len(goals) - 1, 2)), "cat:" + hashlib.sha256(text.encode()).hexdigest()[:10], "categorical"
     if r < 0.8:
         prog, goals = modular_counter_program(rng)
-        text = render_program(prog)
+        text = render_program(prog, rng.choice(["frac", "frac", "minimal"]))
         return {"text": text}, goals, "mod:" + hashlib.sha256(text.encode()).hexdigest()[:10], "branchy"
     prog, goals = branchy_program(rng)
-    text = render_program(prog)
+    text = render_program(prog, rng.choice(["frac", "frac", "minimal"]))
     return {"text": text}, goals, "gen:" + hashlib.sha256(text.encode()).hexdigest()[:10], "branchy"
 
 
